@@ -47,7 +47,7 @@ GARBAGE = [
     "let it = [1, 2, 3].iter().map(|x| [x]).filter(|x| x.len() > 0).list();",
     "let bm = Item(i).describe; bm();",
     "let grown = []; for k in 9.times() { grown.push([k]); }",
-    "let parts = 'a,b,c,d'.split(',').list(); let up = parts[0].up();",
+    "let parts = 'a,b,c,d'.split(',').list(); let up = parts[0].upCase();",
     "let boxed = 0; let inc = || { boxed = boxed + 1; boxed }; inc(); inc();",
     "let sorted = [3, 1, 2].sort(|a, b| { let t = [a, b]; a - b });",
     "class Local { init() { self.v = [1]; } get() { self.v } } Local().get();",
